@@ -432,6 +432,9 @@ def check(prop, tier, seed):
 
     trouble = [t for bb in batches for t in bb.trouble]
     violations = [v for bb in batches for v in bb.violations]
+    # oracle rules named harness-* are the harness doubting itself: trouble (exit 2), never a violation
+    trouble += ["%s at run %s: %s" % (v.get("rule"), v.get("run"), (v.get("detail") or "")[:1500]) for v in violations if (v.get("rule") or "").startswith("harness")]
+    violations = [v for v in violations if not (v.get("rule") or "").startswith("harness")]
     log("[%s] batches done at %.1fs: %d violations raw" % (prop, time.time() - t0, len(violations)))
 
     # aggregate
@@ -467,7 +470,12 @@ def check(prop, tier, seed):
     for v in violations:
         by_key.setdefault((v.get("rule"), v.get("context")), []).append(v)
     os.makedirs(os.path.join(OUTDIR, "replays"), exist_ok=True)
-    for (rule, context), vs in sorted(by_key.items(), key=lambda kv: str(kv[0])):
+    further = []
+    for (rule, context), vs in sorted(by_key.items(), key=lambda kv: (-len(kv[1]), str(kv[0]))):
+        if len(reported) >= 8:
+            # enough to act on: the rest is listed in the evidence, not minimised
+            further.append(dict(rule=rule, context=context, runs=len(vs), first_run=min(x["run"] for x in vs)))
+            continue
         v = min(vs, key=lambda x: (x.get("orig_tape_len", 0), x["run"]))
         k = known_match(v, known)
         if k is not None:
@@ -521,6 +529,7 @@ def check(prop, tier, seed):
         components=COMPONENTS_CODECSIM if PROPS[prop]["engine"] == "codecsim" else COMPONENTS,
         known_findings_hit={kid: h["n"] for kid, h in known_hits.items()},
         violations_reported=[dict(rule=v.get("rule"), context=v.get("context"), replay=p) for v, p in reported],
+        further_violation_keys_not_minimised=further,
         harness_trouble=trouble[:3],
         workers=NWORKERS,
     )
